@@ -382,6 +382,13 @@ impl io::Read for ArcTcpStream {
 
 impl io::Write for ArcTcpStream {
     fn write(&mut self, buf: &[u8]) -> io::Result<usize> {
+        #[cfg(message_io_verif)]
+        {
+            let written = (&*self.0).write(buf);
+            crate::verif::ws_write_delay();
+            return written;
+        }
+        #[cfg(not(message_io_verif))]
         (&*self.0).write(buf)
     }
 
